@@ -282,6 +282,11 @@ fn build_store(cfg: &Value, path: &str) -> FeoxStore {
     let lim = cfg["lim"].as_i64().unwrap_or(-1);
     b = if lim >= 0 { b.max_memory(lim as usize) } else { b.no_memory_limit() };
     if cfg["pers"].as_bool().unwrap_or(false) {
+        let fmt = cfg["fmt"].as_u64().unwrap_or(3) as u32;
+        if fmt < 3 && !std::path::Path::new(path).exists() {
+            // a legacy (v1/v2) device: the real store then writes it in compatibility mode
+            crate::seqdrv::create_legacy_device(path, fmt, cfg["blocks"].as_u64().unwrap_or(64));
+        }
         b = b.device_path(path.to_string()).file_size(cfg["blocks"].as_u64().unwrap_or(64) * 4096)
             .enable_caching(cfg["cache"].as_bool().unwrap_or(false));
     }
@@ -299,7 +304,7 @@ fn reset_event(cfg: &Value, keys: &[Vec<u8>], store: &FeoxStore, threads: usize,
         None => json!({"p": false, "ts": [0,0,0], "exp": [0,0,0], "val": noval()}),
     }).collect();
     json!({"e": "reset", "cfg": {"pers": cfg["pers"].as_bool().unwrap_or(false), "ttl": cfg["ttl"].as_bool().unwrap_or(true),
-            "cache": cfg["cache"].as_bool().unwrap_or(false), "fmt": 3, "lim": cfg["lim"].as_i64().unwrap_or(-1)},
+            "cache": cfg["cache"].as_bool().unwrap_or(false), "fmt": cfg["fmt"].as_u64().unwrap_or(3), "lim": cfg["lim"].as_i64().unwrap_or(-1)},
         "now": limbs(NOW), "klen": keys.iter().map(|k| k.len()).collect::<Vec<_>>(),
         "overhead": FeoxStore::verif_record_overhead(), "threads": threads, "init": init})
 }
